@@ -682,6 +682,55 @@ func (c *FnCtx) registerDoneChan(ch Term) {
 
 // assertAll: `attr assert-all F`: every call of F in the function must carry at least one
 // call-site assertion (a new, unconstrained call site is reported).
+// hookedAll: `attr hooked NAME,...`: every operation of the function whose key names NAME - a
+// send / receive (also as a select case) on channel NAME or a call of function NAME - must carry
+// an `after` hook. Ghost counters then cannot be bypassed by an extra, unhooked operation.
+func (c *FnCtx) hookedAll(fr *Frame) {
+	ct := fr.contract
+	if ct == nil || c.og == nil {
+		return
+	}
+	spec, ok := ct.Attrs["hooked"]
+	if !ok {
+		return
+	}
+	seen := map[string]bool{}
+	var names []string
+	add := func(k string) {
+		if k != "" && !seen[k] {
+			seen[k] = true
+			names = append(names, k)
+		}
+	}
+	for _, k := range c.og.keys {
+		add(k)
+	}
+	for _, ks := range c.og.caseKey {
+		for _, k := range ks {
+			add(k)
+		}
+	}
+	sort.Strings(names)
+	props := c.props
+	for _, nm := range strings.Fields(strings.ReplaceAll(spec, ",", " ")) {
+		if strings.HasPrefix(nm, "@") {
+			// `attr hooked @C01 a,b`: the obligations count for that property
+			props = []string{strings.TrimPrefix(nm, "@")}
+			continue
+		}
+		r := &OblResult{Name: c.eng.shortFuncName(fr.fn) + "/hooked:" + nm, Class: "hooked", Func: c.eng.funcKey(fr.fn), Kind: "prove",
+			Clause: "every operation on " + nm + " carries an after-hook", Status: "discharged", Solve: SolveResult{Status: "unsat", Winner: "opkey-scan"}}
+		for _, k := range names {
+			if (strings.Contains(k, "("+nm+")") || strings.HasPrefix(k, nm+"(")) && len(c.og.afters[k]) == 0 {
+				r.Status = "refuted"
+				r.Solve = SolveResult{Status: "sat", Winner: "opkey-scan", Model: []string{"operation without after-hook: " + k}}
+			}
+		}
+		r.obl = &Obligation{Name: r.Name, Props: props, Kind: "prove", vc: c.vc}
+		c.decided = append(c.decided, r)
+	}
+}
+
 func (c *FnCtx) assertAll(fr *Frame) {
 	ct := fr.contract
 	if ct == nil {
